@@ -8,7 +8,7 @@ git checkout -q -- . && git apply MUTATION/patch.diff || { echo "patch.diff does
 echo "== patch:"; git diff --stat -- . ':!MUTATION' | tail -3
 echo "== tests with change:"
 CARGO_NET_OFFLINE=true cargo test --workspace --no-fail-fast --offline < /dev/null 2>&1 | grep -E "^test result|FAILED|panicked" | awk '/test result/{p+=$4; f+=$6} !/test result/{print} END {print "passed",p,"failed",f}'
-DEMO=$(ls MUTATION/demo.* 2>/dev/null | head -1)
+if [ -f MUTATION/demo.sh ]; then DEMO=MUTATION/demo.sh; else DEMO=$(ls MUTATION/demo.* 2>/dev/null | head -1); fi
 echo "== demo with change ($DEMO):"
 ( bash $DEMO > $D/MUTATION/.demo_mut.out 2>&1 < /dev/null; echo "exit=$?" )
 git apply -R MUTATION/patch.diff
